@@ -392,17 +392,15 @@ theorem libLookup_wf (n : Nat) (i : Inc) : ∀ (libs : List Lib), libs.all (libW
     | dir es =>
       unfold libLookup at h
       split at h
+      · rename_i f hf
+        have : f = g := Option.some.inj h
+        subst this
+        have hm := lookup_mem i.key es f hf
+        have := hw.1
+        unfold libWf at this
+        have := (List.all_eq_true.mp this) _ hm
+        simpa using this
       · exact ih hw.2 g h
-      · split at h
-        · rename_i f hf
-          have : f = g := Option.some.inj h
-          subst this
-          have hm := lookup_mem i.key es f hf
-          have := hw.1
-          unfold libWf at this
-          have := (List.all_eq_true.mp this) _ hm
-          simpa using this
-        · exact ih hw.2 g h
     | file t nm =>
       unfold libLookup at h
       split at h
